@@ -61,6 +61,12 @@ Theorem C20_partial_tag_attr_name : forall u_word u_lower u_ign u_cased s,
 Proof. exact tag_attr_name_ident_partial. Qed.
 Print Assumptions C20_partial_tag_attr_name.
 
+Theorem C20_partial_tag_class_name : forall u_word u_lower u_ign u_cased u_title s,
+  no_foreign_word u_word s = true -> first_alnum_not_digit s = true ->
+  valid_name (tag_class_name u_word u_lower u_title u_ign u_cased s) = true.
+Proof. exact tag_class_name_valid_partial. Qed.
+Print Assumptions C20_partial_tag_class_name.
+
 Theorem C20_refuted_F20d : forall u_word u_lower u_title u_ign u_cased,
   first_alnum_not_digit w_1st = false
   /\ is_ident (tag_attr_name u_word u_lower u_ign u_cased w_1st) = false
